@@ -24,7 +24,8 @@ class C04(flow.Spec):
         "physical memory is simulated by the harness (host pages at a fixed address; frame = host address >> 12); the MMU is the harness's 4-level software walk with the x86-64 constants hard-coded; the model's [mmu] uses the same architecture constants as literals and the Go constants from Gen.Consts_mm_vmm (C04_constants ties them)",
         'theorem domain: pages outside top-level slot 511 (the recursive window itself), frames < 2^40, flags outside bits 12-51 (outside it SetFrame ors frame bits into other fields: agreement only, example C04_frame_domain_needed), frames handed out by the allocator are fresh and distinct (what C01 guarantees), page tables do not alias (ghost ownership map in Inv)',
         "TLB coherence of the recursive window while an inactive table is patched into slot 511 is outside the model; PageDirectoryTable.Map/Unmap dereference the active root's physical address (identity-mapped in the kernel during boot), modelled as a physical access",
-        'C04_histories covers Map/Unmap/Translate on the active space with the zero-frame guard unarmed; MapRegion/IdentityMapRegion, MapTemporary, Init and inactive spaces are covered by per-operation theorems and by the correspondence',
+        'C04_histories covers Map/Unmap/Translate on the active space with the zero-frame guard unarmed; C04_histories_full covers the whole mapping interface on any number of address spaces (page faults: C06; setupPDTForKernel: C05)',
+        'translator gen/gotrans + Lib/GoOps.v for the translation tie of the pageTableEntry / Frame / Page helpers (C04_pte_helpers_are_translation)',
         'huge-page and poked (fabricated) upper-level entries: agreement only (errNoHugePageSupport paths are exercised by the correspondence, not by the monitor)']
     partial = []
 
